@@ -223,7 +223,10 @@ fn read_schedule(rng: &mut Rng, total: usize) -> Vec<RDir> {
                     0 => 1,
                     1 => 1 + rng.usize(4),
                     2 => 1 + rng.usize(40),
-                    _ => 1 + rng.usize(left),
+                    _ => match vh_proto::srcdict::int_le(rng, left as u64, 6) {
+                        Some(c) if c > 0 => c as usize,
+                        _ => 1 + rng.usize(left),
+                    },
                 };
                 v.push(RDir::Go(k));
                 left = left.saturating_sub(k);
@@ -416,7 +419,7 @@ fn has_big_literal(r: &[u8]) -> bool {
 }
 
 fn make_stream(rng: &mut Rng, resp: &[Vec<u8>]) -> (Vec<u8>, Vec<usize>) {
-    let n = rng.range(1, 12) as usize;
+    let n = rng.len(1, 12);
     let mut s = vec![];
     let mut bounds = vec![];
     for _ in 0..n {
@@ -478,9 +481,13 @@ fn run_c04(ctx: &mut Ctx, rng: &mut Rng, resp: &[Vec<u8>], thorough: bool, shard
             }
         }
     }
+    run_c04_random(ctx, rng, resp, thorough, shards);
+}
+
+fn run_c04_random(ctx: &mut Ctx, rng: &mut Rng, resp: &[Vec<u8>], thorough: bool, shards: usize) {
     // (2b) cuts aligned with response boundaries plus a few interior cuts (a read that ends exactly
     // at the end of a response is the shape in which per-frame bookkeeping goes stale)
-    let n2b = if thorough { 60_000 } else { 6_000 } / shards;
+    let n2b = vh_proto::srcdict::scaled(if thorough { 60_000 } else { 6_000 } / shards);
     for _ in 0..n2b {
         let (s, bounds) = make_stream(rng, resp);
         let mut cuts: Vec<usize> = bounds.iter().copied().filter(|b| *b <= s.len() && rng.chance(2, 3)).collect();
@@ -507,7 +514,7 @@ fn run_c04(ctx: &mut Ctx, rng: &mut Rng, resp: &[Vec<u8>], thorough: bool, shard
     // end, followed by short responses: the shape in which a remembered "bytes needed" goes stale
     let big: Vec<&Vec<u8>> = resp.iter().filter(|r| has_big_literal(r)).collect();
     if !big.is_empty() {
-        let n2c = if thorough { 20_000 } else { 3_000 } / shards;
+        let n2c = vh_proto::srcdict::scaled(if thorough { 20_000 } else { 3_000 } / shards);
         for _ in 0..n2c {
             let first: &Vec<u8> = *rng.pick(&big);
             let mut s = first.clone();
@@ -573,7 +580,10 @@ fn run_c04(ctx: &mut Ctx, rng: &mut Rng, resp: &[Vec<u8>], thorough: bool, shard
                 }
             }
         }
-        let unit = *rng.pick(&[1024usize, 4096, 16384, 65536, 1000, 8192]);
+        let unit = match vh_proto::srcdict::int_le(rng, 1 << 20, 4) {
+            Some(c) if c > 0 => c as usize,
+            _ => *rng.pick(&[1024usize, 4096, 16384, 65536, 1000, 8192]),
+        };
         let mut sc = vec![];
         let mut left = s.len();
         while left > 0 {
@@ -593,7 +603,7 @@ fn run_c04(ctx: &mut Ctx, rng: &mut Rng, resp: &[Vec<u8>], thorough: bool, shard
         run_frames_case(ctx, &s, sc, rng.bool(), "long-run-aligned");
     }
     // (3) random schedules
-    let n3 = if thorough { 100_000 } else { 4_000 } / shards;
+    let n3 = vh_proto::srcdict::scaled(if thorough { 100_000 } else { 4_000 } / shards);
     for _ in 0..n3 {
         let (s, _) = make_stream(rng, resp);
         let sc = read_schedule(rng, s.len());
@@ -615,7 +625,10 @@ fn gen_command(rng: &mut Rng) -> Command {
         6 => CommandBuilder::uid_fetch().range(1..=9).attr_macro(AttrMacro::Fast).changed_since(7).into(),
         7 => {
             // an argument beyond the 8 KiB write back-pressure boundary
-            let n = *rng.pick(&[100usize, 4096, 8000, 8180, 8192, 9000, 16384, 20000, 65536, 70000]);
+            let n = match vh_proto::srcdict::int_le(rng, 600_000, 5) {
+                Some(c) => c as usize,
+                None => *rng.pick(&[100usize, 4096, 8000, 8180, 8192, 9000, 16384, 20000, 65536, 70000, 70000, 131_072, 140_000, 262_144, 300_000]),
+            };
             let pat: String = (0..n).map(|i| (b'a' + (i % 26) as u8) as char).collect();
             CommandBuilder::list("", &pat)
         }
@@ -1104,7 +1117,7 @@ fn run_c08_codec(ctx: &mut Ctx, rng: &mut Rng, resp: &[Vec<u8>], thorough: bool,
         b"NIL",
         b" {7}\r\nabc",
     ];
-    let n = if thorough { 60_000 } else { 6_000 } / shards;
+    let n = vh_proto::srcdict::scaled(if thorough { 60_000 } else { 6_000 } / shards);
     for _ in 0..n {
         // content
         let mut content: Vec<u8> = vec![];
@@ -1112,7 +1125,14 @@ fn run_c08_codec(ctx: &mut Ctx, rng: &mut Rng, resp: &[Vec<u8>], thorough: bool,
         for i in 0..pre {
             content.push(b'a' + (i % 26) as u8);
         }
-        let la: &&[u8] = rng.pick(LOOKALIKES);
+        // a literal header announcing a constant of /repo's sources (thresholds of 'big literal' paths), or one
+        // of the fixed look-alikes
+        let dyn_la: Vec<u8> = match vh_proto::srcdict::int_le(rng, u32::MAX as u64, 4) {
+            Some(c) => format!("{{{}}}\r\n", c).into_bytes(),
+            None => format!("{{{}}}\r\n", *rng.pick(&[1u64, 63, 64, 255, 256, 1024, 4095, 4096, 8192, 16384, 65535, 65536, 1 << 20, 1 << 24, (1 << 31) - 1])).into_bytes(),
+        };
+        let la0: &[u8] = *rng.pick(LOOKALIKES);
+        let la: &[u8] = if rng.chance(1, 3) { &dyn_la } else { la0 };
         let la_end = content.len() + la.len();
         content.extend_from_slice(la);
         let post = match rng.range(0, 3) {
@@ -1304,7 +1324,7 @@ fn main() {
                     "C04" => run_c04(&mut ctx, &mut rng, resp, thorough, shard, shards),
                     "C08" => run_c08_codec(&mut ctx, &mut rng, resp, thorough, shards),
                     "C05" | "C06" | "C11" => {
-                        let n = if thorough { 60_000 } else { 6_000 } / shards;
+                        let n = vh_proto::srcdict::scaled(if thorough { 60_000 } else { 6_000 } / shards);
                         for _ in 0..n {
                             run_session_case(&mut ctx, &mut rng, resp, untagged, &prop);
                         }
@@ -1313,6 +1333,21 @@ fn main() {
                         }
                     }
                     _ => {}
+                }
+                // directed passes: one per constant of /repo's sources that the baseline does not have
+                for (fo, _name) in vh_proto::srcdict::foci() {
+                    vh_proto::srcdict::with_focus(fo, || match prop.as_str() {
+                        "C04" => run_c04_random(&mut ctx, &mut rng, resp, thorough, shards),
+                        "C08" => run_c08_codec(&mut ctx, &mut rng, resp, thorough, shards),
+                        "C05" | "C06" | "C11" => {
+                            let n = vh_proto::srcdict::scaled(if thorough { 60_000 } else { 6_000 } / shards);
+                            for _ in 0..n {
+                                run_session_case(&mut ctx, &mut rng, resp, untagged, &prop);
+                            }
+                        }
+                        _ => {}
+                    });
+                    ctx.log.count("source-constant-pass");
                 }
                 ctx.flush();
                 total.lock().unwrap().merge(ctx.log);
